@@ -862,8 +862,17 @@ def loop_to_extend_map(tree: ast.Module) -> int:
                             any(isinstance(y, ast.Name) and y.id == x for y in ast.walk(b.value.func.value)):
                         continue
                     # the loop variable must not be read after the loop (it would keep its last value)
+                    # (a nested function with a parameter / local of the same name has a variable of its own)
+                    own_x: Set[int] = set()
+                    for nf in ast.walk(fn):
+                        if nf is not fn and isinstance(nf, _FN + (ast.Lambda,)):
+                            a_ = nf.args
+                            pn = {q_.arg for q_ in a_.posonlyargs + a_.args + a_.kwonlyargs}
+                            if x in pn or (not isinstance(nf, ast.Lambda) and any(
+                                    isinstance(z, ast.Name) and z.id == x and isinstance(z.ctx, ast.Store) for z in ast.walk(nf))):
+                                own_x |= {id(z) for z in ast.walk(nf)}
                     later = [y for s2 in ast.walk(fn) for y in [s2] if isinstance(y, ast.Name) and y.id == x and isinstance(y.ctx, ast.Load)
-                             and y is not c.args[0]]
+                             and y is not c.args[0] and id(y) not in own_x]
                     if later:
                         continue
                     m = ast.Call(func=ast.Name(id='map', ctx=ast.Load()), args=[c.func, st.iter], keywords=[])
@@ -1176,7 +1185,13 @@ def _simple_helper_classes(tree: ast.Module) -> Dict[str, ast.ClassDef]:
                 is_dc = True
             else:
                 continue
-        if any(not (ast.unparse(b).split('[')[0].split('.')[-1] in ('Generic', 'object')) for b in st.bases):
+        # (a NamedTuple that has methods is, for an object that never leaves its function and is only reached through
+        # attributes, a dataclass: fields by position / keyword, defaults from the class body)
+        nt_like = [ast.unparse(b).split('.')[-1] for b in st.bases] == ['NamedTuple'] and not st.decorator_list \
+            and any(isinstance(b, _FN) for b in st.body)
+        if nt_like:
+            is_dc = True
+        elif any(not (ast.unparse(b).split('[')[0].split('.')[-1] in ('Generic', 'object')) for b in st.bases):
             continue
         if st.name in subclassed:
             continue
@@ -3296,6 +3311,11 @@ def inline_record_methods(tree: ast.Module) -> int:
             dc = any(isinstance(d, ast.Call) and ast.unparse(d.func).split('.')[-1] == 'dataclass' for d in st.decorator_list)
             if (bases == ['NamedTuple'] and not st.keywords) or (dc and not bases):
                 recs.append(st)
+            elif st.name.startswith('_') and not st.decorator_list and not st.keywords and all(b_ in ('Generic', 'object') or b_.startswith('Generic[') for b_ in
+                                                                                               [ast.unparse(b).split('.')[-1] for b in st.bases]):
+                # a private state object (`class _Round: def __init__(self): self.inputs = set() ...`)
+                if any(isinstance(b, ast.FunctionDef) and b.name == '__init__' for b in st.body):
+                    recs.append(st)
     if not recs:
         return 0
     common = set()
@@ -3305,15 +3325,22 @@ def inline_record_methods(tree: ast.Module) -> int:
                'exception', 'acquire', 'release', 'locked', 'close', 'send', 'throw', 'submit', 'shutdown', 'start', 'run', 'stop'}
     for cls in recs:
         fields = {b.target.id for b in cls.body if isinstance(b, ast.AnnAssign) and isinstance(b.target, ast.Name)}
+        for b in cls.body:
+            if isinstance(b, ast.FunctionDef) and b.name == '__init__':
+                fields |= {z.attr for z in ast.walk(b) if isinstance(z, ast.Attribute) and isinstance(z.ctx, ast.Store)
+                           and isinstance(z.value, ast.Name) and z.value.id == b.args.args[0].arg}
+        fields |= {b.name for b in cls.body if isinstance(b, (ast.FunctionDef, ast.AsyncFunctionDef))}      # (methods reached through self)
         for m in [b for b in cls.body if isinstance(b, ast.FunctionDef)]:
             body = [x for x in m.body if not (isinstance(x, ast.Expr) and isinstance(x.value, ast.Constant))]
             a = m.args
-            if m.decorator_list or len(body) != 1 or not isinstance(body[0], ast.Return) or body[0].value is None \
-                    or a.vararg or a.kwarg or a.kwonlyargs or a.posonlyargs or a.defaults or not a.args or m.name in common \
+            stmt_form = len(body) == 1 and isinstance(body[0], ast.Expr) and isinstance(body[0].value, ast.Call)
+            static = len(m.decorator_list) == 1 and ast.unparse(m.decorator_list[0]) == 'staticmethod'
+            if (m.decorator_list and not static) or len(body) != 1 or not ((isinstance(body[0], ast.Return) and body[0].value is not None) or stmt_form) \
+                    or a.vararg or a.kwarg or a.kwonlyargs or a.posonlyargs or a.defaults or (not a.args and not static) or m.name in common \
                     or m.name.startswith('__'):
                 continue
-            selfn = a.args[0].arg
-            params = [x.arg for x in a.args[1:]]
+            selfn = a.args[0].arg if not static else '\x00no-self'
+            params = [x.arg for x in (a.args if static else a.args[1:])]
             expr = body[0].value
             # self is only read through its fields
             if any(isinstance(z, ast.Name) and z.id == selfn and not (isinstance(getattr(z, '_p', None), ast.Attribute)) for z in ()):
@@ -3341,6 +3368,13 @@ def inline_record_methods(tree: ast.Module) -> int:
                 if not (isinstance(c, ast.Call) and c.func is u and isinstance(u.value, ast.Name) and len(c.args) == len(params)
                         and not c.keywords and not any(isinstance(x, ast.Starred) for x in c.args)):
                     good = False
+                    break
+                if stmt_form and not isinstance(parents.get(id(c)), ast.Expr):
+                    good = False        # (a method without a result, used for its result)
+                    break
+                if any(sum(1 for z in ast.walk(expr) if isinstance(z, ast.Name) and z.id == prm) > 1 and not isinstance(arg, (ast.Name, ast.Constant))
+                       for prm, arg in zip(params, c.args)):
+                    good = False        # (an argument that would be evaluated twice)
                     break
                 sites.append(c)
             if not good:
@@ -3445,6 +3479,140 @@ def scalarize_records(tree: ast.Module) -> int:
             fn._added_locals = set(getattr(fn, '_added_locals', set())) | set(names)  # type: ignore[attr-defined]
             fn._removed_locals = set(getattr(fn, '_removed_locals', set())) | {x}  # type: ignore[attr-defined]
             count += 1
+    return count
+
+
+def condition_generators_to_while(tree: ast.Module) -> int:
+    """`for _ in self._until_done():` over a private generator method `while True: if C: return; yield` (or the flipped
+    `while not C: yield`), target unused: the generator yields once per round for as long as C is false - the loop is
+    `while not C:` (C over `self` only, evaluated at the same moments: before each round)."""
+    import copy
+    count = 0
+    gens: Dict[str, ast.expr] = {}     # method name -> condition under which the loop goes on
+    for cls in [n for n in ast.walk(tree) if isinstance(n, ast.ClassDef)]:
+        for m in [b for b in cls.body if isinstance(b, ast.FunctionDef)]:
+            if m.decorator_list or len(m.args.args) != 1 or m.args.vararg or m.args.kwarg or m.args.kwonlyargs:
+                continue
+            body = [x for x in m.body if not (isinstance(x, ast.Expr) and isinstance(x.value, ast.Constant))]
+            if len(body) != 1 or not isinstance(body[0], ast.While) or body[0].orelse:
+                continue
+            w = body[0]
+            y_ok = lambda st: isinstance(st, ast.Expr) and isinstance(st.value, ast.Yield) and st.value.value is None
+            cont = None
+            if isinstance(w.test, ast.Constant) and w.test.value is True and len(w.body) == 2 and isinstance(w.body[0], ast.If) \
+                    and not w.body[0].orelse and len(w.body[0].body) == 1 and isinstance(w.body[0].body[0], (ast.Return, ast.Break)) \
+                    and getattr(w.body[0].body[0], 'value', None) is None and y_ok(w.body[1]):
+                cont = ast.UnaryOp(op=ast.Not(), operand=w.body[0].test)
+            elif len(w.body) == 1 and y_ok(w.body[0]):
+                cont = w.test
+            if cont is None:
+                continue
+            # the condition speaks about self only
+            if any(isinstance(z, ast.Name) and z.id not in (m.args.args[0].arg,) and not z.id[0].isupper() and z.id not in ('True', 'False', 'None')
+                   for z in ast.walk(cont)):
+                continue
+            gens[m.name] = cont
+    if not gens:
+        return 0
+    for fn in [n for n in ast.walk(tree) if isinstance(n, (ast.FunctionDef, ast.AsyncFunctionDef))]:
+        for node in ast.walk(fn):
+            for field in ('body', 'orelse', 'finalbody'):
+                blk = getattr(node, field, None)
+                if not isinstance(blk, list):
+                    continue
+                for i, st in enumerate(blk):
+                    if isinstance(st, ast.For) and not st.orelse and isinstance(st.target, ast.Name) and isinstance(st.iter, ast.Call) \
+                            and isinstance(st.iter.func, ast.Attribute) and isinstance(st.iter.func.value, ast.Name) and st.iter.func.value.id == 'self' \
+                            and st.iter.func.attr in gens and not st.iter.args and not st.iter.keywords:
+                        t = st.target.id
+                        if any(isinstance(z, ast.Name) and z.id == t and isinstance(z.ctx, ast.Load) for b_ in st.body for z in ast.walk(b_)):
+                            continue
+                        test = copy.deepcopy(gens[st.iter.func.attr])
+                        for z in ast.walk(test):
+                            ast.copy_location(z, st.iter)
+                        wl = ast.While(test=test, body=st.body, orelse=[])
+                        ast.copy_location(wl, st)
+                        blk[i] = wl
+                        if not any(isinstance(z, ast.Name) and z.id == t and isinstance(z.ctx, ast.Store) for z in ast.walk(fn)):
+                            fn._removed_locals = set(getattr(fn, '_removed_locals', set())) | {t}  # type: ignore[attr-defined]
+                        count += 1
+    return count
+
+
+def fold_none_fields(tree: ast.Module) -> int:
+    """After an object has been taken apart (deobjectify): a field local `b__via` bound exactly once in its function - to
+    `None`, or to a name that is itself bound once to a fresh library object (`aio.get_running_loop()`, `Queue()`, `Lock()`,
+    ...) - makes `b__via is None` a constant; the `if` it decides is replaced by the branch taken.  This is what is left of
+    `def push(self, x): if self.via is None: ... else: ...` for an object built as `_Feed(q)` or `_Feed(q, loop)`."""
+    count = 0
+    FN = (ast.FunctionDef, ast.AsyncFunctionDef)
+    FRESH = ('get_running_loop', 'get_event_loop', 'new_event_loop', 'Queue', 'LifoQueue', 'Lock', 'RLock', 'Event', 'object',
+             'Semaphore', 'Condition', 'create_future', 'ThreadPoolExecutor')
+    for fn in [n for n in ast.walk(tree) if isinstance(n, FN) and getattr(n, '_deobjectified', False)]:
+        stores: Dict[str, List[ast.AST]] = {}
+        parents: Dict[int, ast.AST] = {}
+        for z in ast.walk(fn):
+            for c_ in ast.iter_child_nodes(z):
+                parents[id(c_)] = z
+        for z in ast.walk(fn):
+            if isinstance(z, ast.Name) and isinstance(z.ctx, (ast.Store, ast.Del)):
+                stores.setdefault(z.id, []).append(z)
+            elif isinstance(z, ast.arg):
+                stores.setdefault(z.arg, []).append(z)
+                stores.setdefault(z.arg, []).append(z)      # a parameter is never "bound once to a known value"
+
+        def single_value(nm: str) -> Optional[ast.expr]:
+            sts = stores.get(nm, [])
+            if len(sts) != 1 or not isinstance(sts[0], ast.Name):
+                return None
+            a = parents.get(id(sts[0]))
+            if isinstance(a, ast.Assign) and len(a.targets) == 1 and a.targets[0] is sts[0]:
+                return a.value
+            if isinstance(a, ast.AnnAssign) and a.target is sts[0]:
+                return a.value
+            return None
+
+        def is_none(nm: str, depth: int = 0) -> Optional[bool]:
+            v = single_value(nm)
+            if v is None:
+                return None
+            if isinstance(v, ast.Constant):
+                return v.value is None
+            if isinstance(v, ast.Call):
+                tail = ast.unparse(v.func).split('.')[-1]
+                return False if tail in FRESH else None
+            if isinstance(v, ast.Name) and depth < 3:
+                return is_none(v.id, depth + 1)
+            return None
+
+        changed = True
+        while changed:
+            changed = False
+            for node in ast.walk(fn):
+                for field in ('body', 'orelse', 'finalbody'):
+                    blk = getattr(node, field, None)
+                    if not isinstance(blk, list):
+                        continue
+                    for i, st in enumerate(blk):
+                        if not isinstance(st, ast.If):
+                            continue
+                        t = st.test
+                        if isinstance(t, ast.Compare) and len(t.ops) == 1 and isinstance(t.ops[0], (ast.Is, ast.IsNot)) \
+                                and isinstance(t.left, ast.Name) and '__' in t.left.id and isinstance(t.comparators[0], ast.Constant) \
+                                and t.comparators[0].value is None:
+                            k = is_none(t.left.id)
+                            if k is None:
+                                continue
+                            truth = k if isinstance(t.ops[0], ast.Is) else not k
+                            chosen = st.body if truth else st.orelse
+                            blk[i:i + 1] = chosen or [ast.copy_location(ast.Pass(), st)]
+                            count += 1
+                            changed = True
+                            break
+                    if changed:
+                        break
+                if changed:
+                    break
     return count
 
 
